@@ -19,7 +19,13 @@ def gen(ctx, n, bounce_share=0.3):
         s = {"case": "gsx%d" % i, "pull": r.random() < 0.5, "chunks": chunks, "dupEvery": r.choice([0, 0, 3, 5]),
              "srcStore": r.random() < 0.4, "dstStore": r.random() < 0.4, "limits": limits, "reqFin": r.random() < 0.4, "forcePause": False,
              "pauseSide": "" if bounce else r.choice(["", "", "I", "R"]), "pauseAt": r.randint(1, max(1, chunks // 2)),
-             "bounceSide": r.choice(["I", "R"]) if bounce else "", "bounceAt": r.randint(2, max(2, chunks // 2)), "seed": ctx.seed * 1000 + i}
+             "bounceSide": r.choice(["I", "R"]) if bounce else "", "bounceAt": r.randint(2, max(2, chunks // 2)), "seed": ctx.seed * 1000 + i,
+             "restartSide": "", "restartAt": 0}
+        if not bounce and r.random() < 0.3:      # same-process restart (no bounce), often with per-channel stores
+            s["restartSide"], s["restartAt"] = r.choice(["I", "R"]), r.randint(1, max(1, chunks // 3))
+            s["pauseSide"], s["limits"], s["reqFin"] = "", [], False
+            s["dstStore"] = s["dstStore"] or r.random() < 0.6
+            s["chunks"] = max(s["chunks"], 20)
         if bounce:
             s["limits"], s["reqFin"] = [], False
             s["chunks"] = max(s["chunks"], 24)
@@ -140,6 +146,8 @@ def run(ctx):
             continue
         s = c["scn"]
         key = {"rule": v["rule"], "dir": v["op"], "bounceSide": s["bounceSide"]}
+        if s.get("restartSide"):
+            key["restartSide"] = s["restartSide"]
         ctx.violation(key, "%s violated in real two-node %s transfer (case %s, bounce=%s): I=%s R=%s hasAll=%s senderQueued=%s receiverReceived=%s unique=%s" % (
             v["rule"], v["op"], v["case"], s["bounceSide"] or "-", c["finalI"]["status"], c["finalR"]["status"], c["hasAll"],
             c["finalR"]["queued"] if s["pull"] else c["finalI"]["queued"], c["finalI"]["received"] if s["pull"] else c["finalR"]["received"], c["uniqueBytes"]),
@@ -152,7 +160,7 @@ def run(ctx):
         s = c["scn"]
         if c["finalI"]["status"] == "Completed":
             done += 1
-            ctx.distinct.add((s["pull"], s["srcStore"], s["dstStore"], len(s["limits"]), s["reqFin"], s["pauseSide"], s["bounceSide"], s["dupEvery"] > 0))
+            ctx.distinct.add((s["pull"], s["srcStore"], s["dstStore"], len(s["limits"]), s["reqFin"], s["pauseSide"], s["bounceSide"], s.get("restartSide", ""), s["dupEvery"] > 0))
     ctx.extra["scenarios"] = nj
     ctx.extra["completed_on_initiator"] = done
     ctx.extra["not_quiesced"] = sum(1 for c in idx.values() if not c["quiesced"])
